@@ -71,7 +71,22 @@ func VH_C17_Func(p []int) {
 	verifCase(m.name)
 	vhVarMax = 1
 	vhIntCap = 64
-	_ = m.callF()
+	res := m.callF()
+	// a conversion never reports success together with a zero-valued result
+	if len(res) == 2 {
+		if ok, isBool := res[1].(bool); isBool {
+			switch x := res[0].(type) {
+			case Stack:
+				verifAssert(ok == !x.IsZero(), "converted-iff-usable")
+				if ok {
+					_ = x.Len()
+					_ = x.String()
+				}
+			case Condition:
+				verifAssert(ok == !x.IsZero(), "converted-iff-usable")
+			}
+		}
+	}
 	verifReach("end")
 }
 
